@@ -60,3 +60,69 @@ def compact_size_decode(b):
     if first == 0xfe:
         return from_le(b[1:5]), 5
     return from_le(b[1:9]), 9
+
+
+# ---------------------------------------------------------------------------------------------------
+# transaction serialisation (protocol documentation + BIP144) over an abstract transaction:
+#   version:int, inputs:[(prev_txid_wire:32 bytes, vout:int, script:bytes, sequence:int, witness:[bytes])], outputs:[(value:int, script:bytes)], locktime:int
+
+def ser_tx(version, inputs, outputs, locktime, with_witness, ser=None):
+    ser = ser or ser_string
+    r = le(version, 4)
+    if with_witness:
+        r = r + b'\x00\x01'
+    r = r + compact_size(len(inputs))
+    for txid_wire, vout, script, sequence, witness in inputs:
+        r = r + txid_wire + le(vout, 4) + ser(script) + le(sequence, 4)
+    r = r + compact_size(len(outputs))
+    for value, script in outputs:
+        r = r + le(value, 8) + ser(script)
+    if with_witness:
+        for txid_wire, vout, script, sequence, witness in inputs:
+            r = r + compact_size(len(witness))
+            for item in witness:
+                r = r + ser(item)
+    return r + le(locktime, 4)
+
+
+def parse_tx(raw):
+    """independent reader: returns (version, inputs, outputs, locktime, has_witness, consumed)"""
+    pos = 0
+
+    def take(n):
+        nonlocal pos
+        if pos + n > len(raw):
+            raise ValueError('truncated')
+        b = raw[pos:pos + n]
+        pos += n
+        return b
+
+    def cs():
+        nonlocal pos
+        v, n = compact_size_decode(raw[pos:pos + 9])
+        take(n)
+        return v
+
+    version = from_le(take(4))
+    has_witness = False
+    if raw[pos:pos + 1] == b'\x00':
+        if raw[pos + 1:pos + 2] != b'\x01':
+            raise ValueError('bad segwit flag')
+        take(2)
+        has_witness = True
+    ins = []
+    for _ in range(cs()):
+        txid_wire = take(32)
+        vout = from_le(take(4))
+        script = take(cs())
+        seq = from_le(take(4))
+        ins.append([txid_wire, vout, script, seq, []])
+    outs = []
+    for _ in range(cs()):
+        value = from_le(take(8))
+        outs.append((value, take(cs())))
+    if has_witness:
+        for i in ins:
+            i[4] = [take(cs()) for _ in range(cs())]
+    locktime = from_le(take(4))
+    return version, [tuple(i) for i in ins], outs, locktime, has_witness, pos
